@@ -6,6 +6,7 @@ mod bound;
 mod client;
 mod engine;
 mod gen;
+mod threads;
 mod poller;
 mod segfile;
 mod updater;
@@ -51,6 +52,13 @@ fn lines() {
             "stall" => engine::run_stall(&toks[1..]),
             "seg" => segfile::run_seg(&toks[1..]),
             "pol" => poller::run(&toks[1..]),
+            "thr" => {
+                // worker threads may be left behind on a violation: answer and leave the process
+                let r = threads::run(&toks[1..]);
+                writeln!(out, "{}", r).unwrap();
+                out.flush().unwrap();
+                std::process::exit(0);
+            }
             "wrt" => segfile::run_wrt(&toks[1..]),
             t => {
                 eprintln!("unknown tag {}", t);
